@@ -12,6 +12,7 @@
 //@ harness e_exit_status kind=enum props=C19 thorough_bound=<<every sequence of 0..=4 child outcomes over {exit 0, exit 3, exit 125, exit 255, killed by SIGKILL}, one invocation per input item, real processes>> bound=<<every sequence of 0..=3 child outcomes over {exit 0, exit 3, exit 125, exit 255, killed by SIGKILL}, one invocation per input item (xargs -n1 -a FILE sh -c ...), and for empty input the single argument-less run exiting 0 or 3; real processes>> label=<<xargs_main returns 0 iff all exited 0, 123 when some exited 1..125 and all input was processed, 124 at once after an exit 255, 125 at once after a death by signal; no invocation runs after the stopping one>>
 //@ harness e_cannot_run kind=enum props=C19 bound=<<commands: missing, file without execute permission, directory, executable file that is no program (ENOEXEC), dangling path through a non-directory (ENOTDIR)>> label=<<a command that cannot be found gives 127, one that exists but cannot be executed gives 126, whatever the errno>>
 //@ harness e_replace kind=enum props=C20 bound=<<replacement strings {} / ab / RR; one initial argument of 1..=3 pieces over {R, first character of R, x}; input lines "l", "a b", a line containing R, and lines ending in a blank or a tab; real processes recording their argv>> label=<<xargs -I R runs the command once per input line with every occurrence of R in the initial argument replaced by the whole line and nothing appended>>
+//@ harness e_delimiter_select kind=enum props=C05 bound=<<one of -0, --null, -d ',', --delimiter=';', or a NUL option and a delimiter option in either order x an input with blanks, a double quote, a single quote, a newline, ',' and ';' (and a NUL when NUL is the delimiter in effect); real processes recording their argv>> label=<<when several of -0/--null/-d/--delimiter are given the one given last names the single byte the input is split at; no quote, blank or newline processing takes place and every other byte reaches the command unchanged>>
 // Exhaustive native enumeration (tools/kani_lane.py, kind=enum): the REAL readers / xargs_main, compiled by plain rustc, are run on
 // every input of the stated domain and compared with an executable transcription of the property statement.
 #[cfg(verif_replay)]
@@ -377,4 +378,38 @@ mod verif_enum_xargs {
         assert!(got == want, "argv per invocation differs from whole-line replacement of every occurrence");
     }
     #[test] fn e_replace() { kani::explore(replace_body) }
+
+    fn delimiter_select_body() {
+        let opts: [(&str, Option<&str>, u8); 4] = [("-0", None, 0), ("--null", None, 0), ("-d", Some(","), b','), ("--delimiter=;", None, b';')];
+        let first = pick(5);          // 4 = only one option
+        let second = pick(4);
+        // the same option twice (or both spellings of it) is left to the option parser: not part of the statement
+        if first != 4 && (first < 2) == (second < 2) { return; }
+        let mut args: Vec<String> = vec!["xargs".into()];
+        let mut delim = 0u8;
+        for k in [first, second] {
+            if k == 4 { continue; }
+            args.push(opts[k].0.into());
+            if let Some(v) = opts[k].1 { args.push(v.into()); }
+            delim = opts[k].2;
+        }
+        let d = scratch("dsel");
+        let (inp, log) = (d.join("in"), d.join("log"));
+        // a NUL cannot be part of an argument: the input holds one only when NUL is the delimiter in effect
+        let data: &[u8] = if delim == 0 { b"a b,c \"d;e\0f\ng" } else { b"a b,c \"d;e'f\ng,;h" };
+        fs::write(&inp, data).unwrap();
+        fs::write(&log, "").unwrap();
+        let script = format!("for a; do printf '<%s>' \"$a\" >> '{l}'; done", l = log.display());
+        args.extend(["-a", inp.to_str().unwrap(), "sh", "-c", &script, "sh"].iter().map(|s| s.to_string()));
+        let argv: Vec<&str> = args.iter().map(|s| s.as_str()).collect();
+        let rc = xargs_main(&argv);
+        let got = fs::read(&log).unwrap();
+        let _ = fs::remove_dir_all(&d);
+        // the statement: split at that one byte only
+        let mut want: Vec<u8> = Vec::new();
+        for item in data.split(|b| *b == delim) { if item.is_empty() { continue; } want.push(b'<'); want.extend_from_slice(item); want.push(b'>'); }
+        if got != want || rc != 0 { eprintln!("  input xargs {:?} on {:?}: exit {rc}, argv recorded {:?}, expected {:?}", &argv[1..argv.len() - 6], String::from_utf8_lossy(data), String::from_utf8_lossy(&got), String::from_utf8_lossy(&want)); }
+        assert!(rc == 0 && got == want, "the input is not split at the byte named by the last delimiter option, and only there");
+    }
+    #[test] fn e_delimiter_select() { kani::explore(delimiter_select_body) }
 }
